@@ -58,6 +58,11 @@ func GenFlow(rng *rand.Rand, o GenOpts) *FlowP {
 		spec := TypeSpec{Kind: k}
 		switch {
 		case o.Modifier:
+			// (the one type with two spellings is within what modifier mode supports)
+			if rng.Intn(8) == 0 && !usedBasic[100] {
+				usedBasic[100] = true
+				spec = TypeSpec{Kind: TBytes}
+			}
 		case usedBasic[101] && !usedBasic[102]:
 			// the unnamed function type is in the flow: give it a named sibling it is assignable to
 			usedBasic[102] = true
@@ -225,6 +230,16 @@ func GenFlow(rng *rand.Rand, o GenOpts) *FlowP {
 				}
 			}
 			t.Out = append(t.Out, ty)
+		}
+		if t.Fallback && len(t.Out) > 0 && rng.Intn(3) == 0 {
+			t.FBNil = true
+			for _, ty := range t.Out {
+				switch f.Types[ty].Kind {
+				case TPointer, TSlice, TMap, TIface, TFunc, TBytes, TFuncLit:
+				default:
+					t.FBNil = false
+				}
+			}
 		}
 		if f.Generic {
 			// a function that mentions a type parameter can only be written inside the generic function
